@@ -49,7 +49,7 @@ CHECKS = [
     {"id": "C09", "engine": "W",
      "technique": "property-based testing (Hypothesis) over the full character alphabet of status/header strings and start_response call programs, line-for-line head oracle",
      "text": "Status strings, header names and values over the whole alphabet (forbidden bytes at every position class), hop-by-hop names, websocket "
-             "upgrade and second start_response calls (with/without exc_info, before/after the first write) x 4 worker classes: forbidden input "
+             "upgrade and second start_response calls (with/without exc_info, before/after the first write, refused-and-survived for every kind of refusal), applications that mutate their header list after the call, and two overlapping requests inside one gthread worker (harness-owned interleaving) x 4 worker classes: forbidden input "
              "must leave nothing of the application's head on the wire; otherwise the head must equal the model line for line; plainly valid heads "
              "must not be refused.",
      "note": "server may refuse more than the statement demands; error pages (4xx/5xx written by the server itself) count as 'nothing of the application's head'"},
@@ -62,7 +62,7 @@ CHECKS = [
     {"id": "C08", "engine": "W",
      "technique": "property-based testing (Hypothesis) of header spellings x peers x trust configuration against a reference trust model of the WSGI environ",
      "text": "Keep-alive request sequences with hyphen/underscore/case spellings of proxy-fact and ordinary headers x peers (listed, unlisted, IPv6, unix) x "
-             "allow lists x forwarder_headers x header_map x secure_scheme_headers x PROXY lines x 4 worker classes; every environ the application got "
+             "allow lists x forwarder_headers x header_map x secure_scheme_headers x PROXY lines x an optional earlier connection from another peer to the same worker x 4 worker classes; every environ the application got "
              "is compared with the reference (exact HTTP_* mapping, scheme/SCRIPT_NAME/PATH_INFO/REMOTE_ADDR only from trusted peers, PROXY address on "
              "every request, refusals without application call).",
      "note": "reference model written from the documented settings semantics; header_map=dangerous only checked for HTTP_* mapping"},
